@@ -438,12 +438,9 @@ fn judge(case: &SourceCase, t: &Trace, which: Which, labels: &mut Labels, nontri
                         if !d.within_window {
                             why.push("outside the poll window");
                         }
-                        let exp = match t.steps[..si].last().map(|p| p.state.protocol_version) {
-                            Some(ProtocolVersion::V4) | None => vec![3, 4],
-                            Some(ProtocolVersion::V4UpgradingToV5 { .. }) => vec![4],
-                            Some(ProtocolVersion::UpgradedToV5) | Some(ProtocolVersion::V5) => vec![5],
-                        };
-                        if !exp.contains(&d.version) {
+                        // expected version: the reference negotiation machine (C12 checks the implementation
+                        // against the same machine), not the implementation's own state
+                        if !expects(m.ver, d.version) {
                             why.push("unexpected protocol version");
                         }
                         if r.mode != 4 {
